@@ -24,7 +24,8 @@ def joinCalls (pfx : String) (l : List Nat) : List String := l.map (fun i => s!"
 
 def dotted (l : List String) : String := if l.isEmpty then "-" else ".".intercalate l
 
-def render (o : Outcome) : String :=
+def render (v : VOutcome) : String :=
+  let o := v.base
   let d := match o.dres with
     | .rejBefore => "rej-before" | .selfConnect => "self" | .invalidAlpn => "invalid-alpn"
     | .noAlpn => "noalpn" | .rejAfter => "rej-after" | .closed c => s!"closed:{c}" | .estab => "estab"
@@ -34,20 +35,44 @@ def render (o : Outcome) : String :=
   let ac := match o.aAfter with
     | none => "*"
     | some l => dotted (joinCalls "a" l)
-  s!"d:{dotted (joinCalls "b" o.dBefore ++ joinCalls "a" o.dAfter)}|{d} a:{ac}|{a}"
+  let z := match v.z with
+    | .notAttempted => "-" | .handedBack => "none" | .accepted => "acc" | .rejected => "rej" | .unknown => "?"
+  let peerRejected := o.dres == .rejAfter
+  let early := if peerRejected then "*" else match v.aEarly with
+    | .none => "-" | .pre => "pre" | .unspecified => "*"
+  s!"d:{dotted (joinCalls "b" o.dBefore ++ joinCalls "a" o.dAfter)}|{d}|{z} a:{ac}|{a}|{early}"
+
+def parseVariants (s : String) : Option (DVariant × AVariant) :=
+  match s.splitOn "/" with
+  | [d, a] =>
+    let dv? : Option DVariant := match d with
+      | "c" => some .connect | "o" => some .opts | "zn" => some .zNoTicket
+      | "za" => some .zAccepted | "zr" => some .zRejected | _ => none
+    let av? : Option AVariant := match a with
+      | "a" => some .accepting | "i" => some .incoming | "z" => some .zeroRtt | _ => none
+    match dv?, av? with
+    | some dv, some av => some (dv, av)
+    | _, _ => none
+  | _ => none
 
 def handleLine (payload : String) : String :=
   match tokens payload with
   | "infra" :: _ => "infra"
-  | [t, a, dh, ah] =>
+  | t :: a :: dh :: ah :: rest =>
     let t? : Option Target := if t = "T=peer" then some .peer else if t = "T=self" then some .self else none
     let a? : Option AlpnKind :=
       if a = "A=ok" then some .ok else if a = "A=other" then some .other else if a = "A=empty" then some .empty else none
+    let v? : Option (DVariant × AVariant) := match rest with
+      | [] => some (.opts, .accepting)
+      | [v] => (v.dropPrefix? "V=").bind (fun x => parseVariants x.toString)
+      | _ => none
     match t?, a?, (dh.dropPrefix? "DH=").bind (fun x => parseHooks x.toString),
-          (ah.dropPrefix? "AH=").bind (fun x => parseHooks x.toString) with
-    | some t, some a, some dh, some ah =>
-      if dh.length > 4 ∨ ah.length > 4 then "bad-input" else render (connect t a dh ah)
-    | _, _, _, _ => "bad-input"
+          (ah.dropPrefix? "AH=").bind (fun x => parseHooks x.toString), v? with
+    | some t, some a, some dh, some ah, some (dv, av) =>
+      if dh.length > 4 ∨ ah.length > 4 then "bad-input"
+      else if dv.attempts0rtt ∧ ¬ (t = .peer ∧ a = .ok) then "bad-input"
+      else render (connectV dv av t a dh ah)
+    | _, _, _, _, _ => "bad-input"
   | _ => "bad-input"
 
 def main : IO Unit := Driver.run handleLine
